@@ -7,6 +7,7 @@ import (
 	"os"
 	"os/exec"
 	"path/filepath"
+	"sort"
 	"strings"
 
 	"github.com/oasisprotocol/oasis-core/go/common/verifhook"
@@ -559,7 +560,11 @@ func (e CrashEngine) executeRestore(sc *core.Scenario, k *CRKnobs, base, scFile 
 				v = crViol("reopen-failed", "reopen-failed "+backend, fmt.Sprintf("%s: reopening the database failed: %v", where, err))
 				return
 			}
-			defer dst.Close()
+			defer func() {
+				if dst != nil {
+					dst.Close()
+				}
+			}()
 			lv, ok := dst.GetLatestVersion()
 			if ok && lv == k.Restore.Version {
 				// Only legitimate if the crash came after the finalization took full effect.
@@ -573,6 +578,11 @@ func (e CrashEngine) executeRestore(sc *core.Scenario, k *CRKnobs, base, scFile 
 				t.Close()
 				if err != nil {
 					v = crViol("restored-root-unreadable-after-crash", "restored-root-unreadable-after-crash "+backend, fmt.Sprintf("%s: the restored version is reported finalized after reopen but: %v", where, err))
+					return
+				}
+				var detail string
+				if dst, detail = restoreAfterlife(ctx, backend, filepath.Join(dir, "dst"), dst, root, contents, k.Restore.SchedSeed+uint64(hit), st); detail != "" {
+					v = crViol("finalized-lost-after-crash-and-later-operations", "finalized-lost-after-crash-and-later-operations "+backend, fmt.Sprintf("%s: the restore took full effect; %s", where, detail))
 				}
 				return
 			}
@@ -604,6 +614,10 @@ func (e CrashEngine) executeRestore(sc *core.Scenario, k *CRKnobs, base, scFile 
 				return
 			}
 			st.Inc("probe.fresh_restore_after_crash_ok")
+			var detail string
+			if dst, detail = restoreAfterlife(ctx, backend, filepath.Join(dir, "dst"), dst, root, contents, k.Restore.SchedSeed+uint64(hit), st); detail != "" {
+				v = crViol("finalized-lost-after-crash-and-later-operations", "finalized-lost-after-crash-and-later-operations "+backend, fmt.Sprintf("%s: a fresh restore after reopen succeeded; %s", where, detail))
+			}
 		})
 		if pv != nil {
 			return crViol("panic", "panic "+backend, fmt.Sprintf("%s: panic during recovery: %v\n%s", where, pv, stack)), true
@@ -615,4 +629,90 @@ func (e CrashEngine) executeRestore(sc *core.Scenario, k *CRKnobs, base, scFile 
 	}
 	st.Sample(2, map[string]interface{}{"restore": true, "dst": backend, "chunks": len(chunks), "step": plan[target], "hits": dry.Names})
 	return nil, true
+}
+
+// restoreAfterlife lets a database whose restored root has been finalized live on: further
+// versions are committed on top of it, a later restore is started and aborted, the database is
+// reopened — after every step every finalized root must read back its contents. It returns the
+// (possibly reopened) database and a description of the first failure ("" = none).
+func restoreAfterlife(ctx context.Context, backend, dir string, dst dbapi.NodeDB, root node.Root, contents Model, seed uint64, st *core.Stats) (dbapi.NodeDB, string) {
+	if root.Type != node.RootTypeState || root.Hash.IsEmpty() {
+		return dst, ""
+	}
+	type fin struct {
+		root node.Root
+		m    Model
+	}
+	var keys []string
+	for k := range contents {
+		keys = append(keys, k)
+	}
+	sort.Strings(keys)
+	finals := []fin{{root, contents}}
+	cur, curM := root, contents
+	r := core.NewRand(seed ^ 0xaf7e11fe)
+	steps := []string{"commit", "abort", "commit", "reopen", "abort", "commit"}
+	perm := r.Perm(len(steps))
+	shuffled := make([]string, 0, len(steps))
+	for _, i := range perm {
+		shuffled = append(shuffled, steps[i])
+	}
+	steps = shuffled[:r.Range(3, len(shuffled))]
+	for si, s := range steps {
+		switch s {
+		case "commit":
+			nm := Model{}
+			for kk, vv := range curM {
+				nm[kk] = vv
+			}
+			tr := mkvs.NewWithRoot(nil, dst, cur)
+			for j, m := 0, r.Range(1, 3); j < m; j++ {
+				key := []byte(fmt.Sprintf("afterlife-%d-%d", si, j))
+				if len(keys) > 0 && r.Chance(2, 3) {
+					key = []byte(keys[r.Intn(len(keys))])
+				}
+				val := Value(300000+si*10+j, r.Range(1, 20))
+				nm[string(key)] = val
+				if err := tr.Insert(ctx, key, val); err != nil {
+					tr.Close()
+					return dst, fmt.Sprintf("afterlife step %d (%v): insert on top of the latest finalized root failed: %v", si, steps[:si+1], err)
+				}
+			}
+			_, h, err := tr.Commit(ctx, Namespace, cur.Version+1)
+			tr.Close()
+			if err != nil {
+				return dst, fmt.Sprintf("afterlife step %d (%v): commit of version %d failed: %v", si, steps[:si+1], cur.Version+1, err)
+			}
+			nr := node.Root{Namespace: Namespace, Version: cur.Version + 1, Type: root.Type, Hash: h}
+			if err := dst.Finalize([]node.Root{nr}); err != nil {
+				return dst, fmt.Sprintf("afterlife step %d (%v): finalize of version %d failed: %v", si, steps[:si+1], nr.Version, err)
+			}
+			cur, curM = nr, nm
+			finals = append(finals, fin{nr, nm})
+		case "abort":
+			if err := dst.StartMultipartInsert(cur.Version + 1); err != nil {
+				return dst, fmt.Sprintf("afterlife step %d (%v): StartMultipartInsert(%d) failed: %v", si, steps[:si+1], cur.Version+1, err)
+			}
+			if err := dst.AbortMultipartInsert(); err != nil {
+				return dst, fmt.Sprintf("afterlife step %d (%v): AbortMultipartInsert failed: %v", si, steps[:si+1], err)
+			}
+		case "reopen":
+			dst.Close()
+			ndb, err := TryOpenDB(backend, dir)
+			if err != nil {
+				return nil, fmt.Sprintf("afterlife step %d (%v): reopening the database failed: %v", si, steps[:si+1], err)
+			}
+			dst = ndb
+		}
+		for _, f := range finals {
+			tr := mkvs.NewWithRoot(nil, dst, f.root)
+			err := CompareDump(ctx, tr, f.m)
+			tr.Close()
+			if err != nil {
+				return dst, fmt.Sprintf("after afterlife step %d (%v) the finalized root of version %d (restored at version %d) is no longer readable with its contents: %v", si, steps[:si+1], f.root.Version, root.Version, err)
+			}
+		}
+		st.Inc("probe.restore_afterlife_step_checked")
+	}
+	return dst, ""
 }
